@@ -440,3 +440,59 @@ def walk_paths(cfg: CFG, start: Node, state, transfer: Callable, follow: Callabl
                 continue
             stack.append((succ, l2, st, v2, depth + 1))
     return count
+
+
+# --------------------------------------------------------------------------- reaching definitions
+def reaching_definitions(cfg: CFG, params: Iterable[str]):
+    """Classic forward may-analysis on the statement CFG (normal and exceptional edges).
+    Returns IN[node.id] : dict name -> frozenset of definition values (ast expr, or the string 'param')."""
+    gen: Dict[int, List[Tuple[str, object]]] = {}
+    for n in cfg.nodes:
+        s = n.stmt
+        g = []
+        if s is not None and n.kind in ("stmt", "loop", "test"):
+            if n.kind == "stmt" and isinstance(s, (ast.Assign, ast.AnnAssign, ast.AugAssign, ast.With, ast.FunctionDef)):
+                for names, val in stmt_defs(s):
+                    for nm in names:
+                        g.append((nm, val if val is not None else s))
+            elif n.kind == "loop" and isinstance(s, ast.For):
+                for names, val in stmt_defs(s):
+                    for nm in names:
+                        g.append((nm, val))
+        gen[n.id] = g
+    IN: Dict[int, Dict[str, frozenset]] = {n.id: {} for n in cfg.nodes}
+    OUT: Dict[int, Dict[str, frozenset]] = {n.id: {} for n in cfg.nodes}
+    init = {p: frozenset(["param"]) for p in params}
+    work = deque([cfg.entry])
+    OUT[cfg.entry.id] = dict(init)
+    seen_once = set()
+    while work:
+        n = work.popleft()
+        if n is cfg.entry:
+            out = dict(init)
+        else:
+            merged: Dict[str, set] = {}
+            for p, _ in n.pred:
+                for k, v in OUT[p.id].items():
+                    merged.setdefault(k, set()).update(v)
+            IN[n.id] = {k: frozenset(v) for k, v in merged.items()}
+            out = dict(IN[n.id])
+            # subscript/attribute stores do not kill; plain name stores do
+            for nm, val in gen[n.id]:
+                s = n.stmt
+                plain = True
+                if isinstance(s, ast.Assign):
+                    plain = any(isinstance(t, ast.Name) and t.id == nm for t in s.targets) or \
+                        any(isinstance(t, (ast.Tuple, ast.List)) and any(isinstance(e, ast.Name) and e.id == nm for e in t.elts) for t in s.targets)
+                elif isinstance(s, ast.AugAssign):
+                    plain = isinstance(s.target, ast.Name)
+                if plain:
+                    out[nm] = frozenset([val])
+                else:
+                    out[nm] = frozenset(set(out.get(nm, ())) | {val})
+        if out != OUT[n.id] or n.id not in seen_once:
+            seen_once.add(n.id)
+            OUT[n.id] = out
+            for s2, _ in n.succ:
+                work.append(s2)
+    return IN
